@@ -19,6 +19,8 @@ for k in sorted(os.listdir(src)):
     if not os.path.isfile(os.path.join(d, "patch.diff")):
         continue
     kcrate = crates[int(k) - 1] if len(crates) > 1 and k.isdigit() and int(k) <= len(crates) else crates[0]
+    if os.path.isfile(os.path.join(d, "crate.txt")):  # round 4: the sub-agent names the demo's crate
+        kcrate = open(os.path.join(d, "crate.txt")).read().strip() or kcrate
     conf = subprocess.run([os.path.join(ROOT, "bin/confirm_seeded.sh"), d, kcrate], capture_output=True, text=True).stdout
     steps = dict(re.findall(r"STEP ([a-z\-]+): (.*)", conf))
     ok = (
